@@ -27,16 +27,30 @@ THEOREMS = {
     'C15_fuel_adequate': 'the fuel-indexed loops of the model never run out of fuel; entry points never return model-only outcomes',
     'C15_entry_points_agree_partial': 'plain line breaks: parse_stream text = parse_string text with lines rstripped; with no trailing white space parse_string / parse_stream / parse_file agree',
     'C15_entry_points_agree_neg': 'witness: a string literal spanning a line break with a blank before the break is read differently by parse_string and parse_stream',
+    'C15_lexical_error_located': 'well-formed prefix under ANY lay-out + text that cannot begin a token (# without an ASCII integer behind it: #, #-, #+1, #a; a " never closed) followed by anything: rejected on the line where that text starts - inside a group at any depth of open function literals ("name or string or ... expected"), where a command is due, where a { is due',
+    'C15_lexical_error_located_nonvacuous': 'the broken tokens of the review are lexBad, real tokens are not; instances of the three cases with the offence on line 3; the reference reading readBad names the same place (kernel evaluation)',
+    'C15_int_too_long_located': 'an integer literal with more digits than int() converts, inside a group behind a well-formed prefix: PybtexSyntaxError "integer literal too long" on the line of the literal (repaired parse_group, C15-3)',
+    'C15_int_too_long_located_nonvacuous': 'the regenerated interpreter limit equals the reference limit 4300; 10^4299 is a well-formed integer token, 10^4300 is not',
+    'C15_equality': 'the == of parse results (Variable.__eq__, Function.__eq__, list.__eq__) is structural equality; two printed well-formed programs parse to equal values iff the same program was written, whatever the lay-outs',
+    'C15_equality_nonvacuous': 'tokens differing in a leaf value, a leaf class or a nested body are unequal; command names compare as written',
+    'C15_command_ascii': 'a name accepted by the arity table consists of ASCII letters and upper-cases to a table entry; every command of every ACCEPTED source is one of the ten commands with exactly its number of groups',
+    'C15_roundtrip_entry_points': 'printing any well-formed program with any lay-out whose line breaks are \\n / \\r\\n and reading it back through parse_stream or parse_file is the identity too - trailing blanks allowed (no noTrailingWs proviso)',
+    'C15_roundtrip_entry_points_nonvacuous': 'a lay-out with blanks before \\n, \\r\\n, a comment and the end of text: plain breaks, trailing white space, parse_stream and parse_file read the program back (kernel evaluation)',
+    'C15_command_ascii_nonvacuous': 'long-s ORT / dotless-i TERATE are not commands (rejected on their line), #<Arabic digit> is no integer, sOrT is a command',
 }
 RULE = ('exhaustive: FUNCTION bodies of <=3 tokens over every token kind (names of operator characters, quoted names, negative '
         'integers, strings containing % # { }) with function literals nested <=2, all commands x 3 spellings singly and in pairs, '
         'each under 4-6 lay-outs; every single-lexeme corruption (delete, duplicate, replace by each kind, truncate) and every '
         'character truncation of a base set; seeded random large programs with random lay-outs; random raw text; random lines for '
-        'strip_comment; corpus: all .bst files of tests/data.  non-trivial = source with >= 2 lexemes; distinct by case JSON')
-TRUSTED = ['str.upper / \\d are ASCII in the model (command names and digits are drawn from ASCII)',
-           'Python twin of the Lean printer in this module (its output is compared with the Lean `print` on every case)']
-ASSUMPTIONS = ['no non-ASCII letters in command names, no non-ASCII digits after #',
-               'nesting depth below Python\'s recursion limit (the model has no such limit)']
+        'strip_comment; corpus: all .bst files of tests/data; every lexeme of the base programs replaced by lexically broken pieces (#, #-, '
+        '#+1, #a, "x, x") and by Unicode look-alikes (long-s / dotless-i command names, non-ASCII decimal digits); integers of 4299-5000 '
+        'digits and nesting 50-1000 deep (flat comparison); pairs of programs differing in exactly one place compared with the real ==.  '
+        'non-trivial = source with >= 2 lexemes; distinct by case JSON')
+TRUSTED = ['Python twin of the Lean printer in this module (its output is compared with the Lean `print` on every case)',
+           'sys.get_int_max_str_digits() of the running interpreter (regenerated into Gen/BstCommands.lean; must equal the reference 4300)']
+ASSUMPTIONS = ['function literals nested less than DEEP_NESTING = 300 levels deep: beyond about 0.7 x sys.getrecursionlimit() levels the recursive '
+               'parse_group raises RecursionError (recorded finding C15-deep-nesting-recursion; the model and the theorems have no such limit)',
+               'integer tokens of at most 4300 digits are well-formed (WFProg / wfInt); longer ones are rejected with a syntax error (C15-3)']
 
 # ------------------------------------------------------------------------------------------------
 # implementation side
@@ -77,6 +91,55 @@ def _outcome(thunk):
         return {'err': compat.pybtex_error_kind(e)}
 
 
+def _flat_toks(toks):
+    """Pre-order token list with explicit braces, integers as decimal strings; iterative (no recursion: used for very
+    deep nesting)."""
+    from pybtex.bibtex.interpreter import FunctionLiteral, Identifier, Integer, QuotedVar, String
+    tags = {Integer: 'i', String: 's', QuotedVar: 'q', Identifier: 'n'}
+    out = []
+    depth = 0
+    stack = [iter(toks)]
+    while stack:
+        try:
+            t = next(stack[-1])
+        except StopIteration:
+            stack.pop()
+            if stack:
+                out.append('}')
+            continue
+        ty = type(t)
+        if ty is FunctionLiteral:
+            out.append('{')
+            stack.append(iter(t.body))
+            depth = max(depth, len(stack) - 1)
+        elif ty in tags:
+            v = t.value()
+            out.append([tags[ty], str(v) if ty is Integer else v])
+        else:
+            raise TypeError('unexpected token object of type %s' % ty.__name__)
+    return out, depth
+
+
+def _outcome_flat(thunk):
+    from pybtex.scanner import PybtexSyntaxError
+    try:
+        cmds = list(thunk())
+        prog = []
+        depth = 0
+        for c in cmds:
+            gs = []
+            for g in c[1:]:
+                f, d = _flat_toks(g)
+                depth = max(depth, d)
+                gs.append(f)
+            prog.append({'c': c[0], 'g': gs})
+        return {'ok_flat': prog, 'depth': depth}
+    except PybtexSyntaxError as e:
+        return {'err': type(e).__name__, 'line': e.lineno, 'msg': e.args[0] if e.args else None}
+    except Exception as e:  # noqa
+        return {'err': compat.pybtex_error_kind(e)}
+
+
 _TMP = None
 
 
@@ -89,14 +152,38 @@ def _tmpfile():
     return _TMP[1]
 
 
-def outcomes(text):
+def outcomes(text, flat=False):
     from pybtex.bibtex import bst
-    res = {'string': _outcome(lambda: bst.parse_string(text)),
-           'stream': _outcome(lambda: bst.parse_stream(io.StringIO(text)))}
+    oc = _outcome_flat if flat else _outcome
+    res = {'string': oc(lambda: bst.parse_string(text)),
+           'stream': oc(lambda: bst.parse_stream(io.StringIO(text)))}
     path = _tmpfile()
     with open(path, 'w', encoding='utf-8', newline='') as f:
         f.write(text)
-    res['file'] = _outcome(lambda: bst.parse_file(path, encoding='utf-8'))
+    res['file'] = oc(lambda: bst.parse_file(path, encoding='utf-8'))
+    return res
+
+
+def equality(text1, text2):
+    """The real `==` / `!=` of the parse results (lists of str and of the interpreter's token objects)."""
+    from pybtex.bibtex import bst
+
+    def parse(t):
+        try:
+            return list(bst.parse_string(t))
+        except Exception:  # noqa
+            return None
+    a, a2, b = parse(text1), parse(text1), parse(text2)
+    res = {'text1': text1, 'text2': text2, 'p1': _outcome(lambda: bst.parse_string(text1)),
+           'p2': _outcome(lambda: bst.parse_string(text2)), 'eq': None, 'ne': None, 'eq_self': None}
+    try:
+        if a is not None and b is not None:
+            res['eq'] = bool(a == b)
+            res['ne'] = bool(a != b)
+        if a is not None and a2 is not None:
+            res['eq_self'] = bool(a == a2)
+    except Exception as e:  # noqa
+        res['eq'] = compat.pybtex_error_kind(e)
     return res
 
 
@@ -119,6 +206,8 @@ def lex_text(l):
         return '#' + str(l[1])
     if k == 's':
         return '"' + l[1] + '"'
+    if k == 'raw':
+        return l[1]
     return k
 
 
@@ -195,8 +284,10 @@ def impl(case):
             return bst.strip_comment(case['line'])
         except Exception as e:  # noqa
             return {'err': compat.pybtex_error_kind(e)}
+    if op == 'bsteq':
+        return equality(render(prog_lexemes(case['prog']), case['layout']), render(prog_lexemes(case['prog2']), case['layout2']))
     text = case_text(case)
-    res = outcomes(text)
+    res = outcomes(text, flat=bool(case.get('flat')))
     if case.get('digest'):
         return {k: _digest(v) for k, v in res.items()}
     if op != 'bstparse':
@@ -226,6 +317,59 @@ def _reparse(text):
     return _outcome(lambda: bst.parse_string(text))
 
 
+COMMANDS_REF = {'ENTRY': 3, 'EXECUTE': 1, 'FUNCTION': 2, 'INTEGERS': 1, 'ITERATE': 1, 'MACRO': 2, 'READ': 0, 'REVERSE': 1,
+                'SORT': 0, 'STRINGS': 1}    # the ten commands of the property ("all ten commands ... with their argument groups")
+_ASCII_UP = {i: i - 32 for i in range(ord('a'), ord('z') + 1)}
+_ASCII_INT = __import__('re').compile(r'#(-?[0-9]+)')
+
+
+def _ints_of(groups):
+    """Integer values of a canonical (nested or flat) group list, iteratively."""
+    out = []
+    stack = [groups]
+    while stack:
+        x = stack.pop()
+        if isinstance(x, list):
+            if len(x) == 2 and x[0] in ('Integer', 'i') and not isinstance(x[1], list):
+                out.append(int(x[1]))
+            else:
+                stack.extend(x)
+    return out
+
+
+def accepted_clauses(text, s):
+    """Clauses on an ACCEPTED source (parse_string returned a program): every command name is an ASCII-case spelling of one
+    of the ten commands and carries that command's number of groups; every integer token is spelled in the source with
+    ASCII digits ('malformed source is rejected': 'ſORT' is no command, '#٣' no integer)."""
+    fails = []
+    prog = s.get('ok', s.get('ok_flat'))
+    if prog is None:
+        return fails
+    asc = None
+    for c in prog:
+        name = c['c']
+        ar = COMMANDS_REF.get(name.translate(_ASCII_UP)) if isinstance(name, str) else None
+        if ar is None:
+            fails.append('command_names: %r is accepted as a command; it is not one of the ten commands in any ASCII letter case' % (name,))
+        elif ar != len(c['g']):
+            fails.append('command_names: command %r is returned with %d argument groups instead of %d' % (name, len(c['g']), ar))
+        try:
+            ints = _ints_of(c['g'])
+        except ValueError:     # longer than this interpreter converts: spelled with ASCII digits or int() had refused it
+            ints = []
+        for v in ints:
+            if asc is None:
+                asc = set()
+                for m in _ASCII_INT.finditer(text):
+                    try:
+                        asc.add(int(m.group(1)))
+                    except ValueError:
+                        pass
+            if v not in asc:
+                fails.append('integer_tokens: Integer(%d) is returned but the source spells no such integer with ASCII digits' % v)
+    return fails[:3]
+
+
 def oracle(case, impl_out, reply):
     fails = []
     op = case['op']
@@ -234,6 +378,17 @@ def oracle(case, impl_out, reply):
         if impl_out != spec:
             fails.append('comment: strip_comment(%r) = %r, but the text before the first %% outside a string literal is %r' % (
                 case['line'], impl_out, spec))
+        return fails
+    if op == 'bsteq':
+        if impl_out.get('text1') != reply['out'].get('text1') or impl_out.get('text2') != reply['out'].get('text2'):
+            fails.append('printer: the Python twin of the printer differs from the Lean print (harness problem)')
+        if spec['wf']:
+            if impl_out['eq_self'] is not True:
+                fails.append('equality: parse(src) == parse(src) is %r for src = %r' % (impl_out['eq_self'], impl_out['text1'][:200]))
+            if impl_out['eq'] is not spec['same'] or impl_out['ne'] is not (not spec['same']):
+                fails.append('equality: the programs written are %s, but parse(a) == parse(b) is %r and parse(a) != parse(b) is %r '
+                             '[a = %r, b = %r]' % ('the same' if spec['same'] else 'different', impl_out['eq'], impl_out['ne'],
+                                                   impl_out['text1'][:200], impl_out['text2'][:200]))
         return fails
     if case.get('digest'):
         s = impl_out['string']
@@ -265,10 +420,11 @@ def oracle(case, impl_out, reply):
                 fails.append('entry_points: parse_stream/parse_file differ from parse_string on rendered lexemes')
     elif op == 'bstparse':
         # comments: parsing is unaffected by removing, from every line, the text from the first % outside a string
-        again = _reparse('\n'.join(spec['stripped']) + '\n')
-        if again != s:
-            fails.append('comment: parse_string(src) = %s but without the comments (%r) it is %s' % (
-                json.dumps(s, ensure_ascii=False)[:200], spec['stripped'][:5], json.dumps(again, ensure_ascii=False)[:200]))
+        if not case.get('flat'):
+            again = _reparse('\n'.join(spec['stripped']) + '\n')
+            if again != s:
+                fails.append('comment: parse_string(src) = %s but without the comments (%r) it is %s' % (
+                    json.dumps(s, ensure_ascii=False)[:200], spec['stripped'][:5], json.dumps(again, ensure_ascii=False)[:200]))
         if 'err' in s and not s['err'].startswith('INTERNAL'):
             nlines = max(1, len(spec['lines']))
             if not (isinstance(s.get('line'), int) and 1 <= s['line'] <= nlines):
@@ -277,14 +433,36 @@ def oracle(case, impl_out, reply):
             fails.append('entry_points: parse_stream/parse_file differ from parse_string on plain text: %s / %s' % (
                 json.dumps(impl_out['stream'], ensure_ascii=False)[:200], json.dumps(impl_out['file'], ensure_ascii=False)[:200]))
     if isinstance(s, dict) and str(s.get('err', '')).startswith('INTERNAL'):
-        fails.append('malformed_located: parse_string raised a non-pybtex exception %s' % s['err'])
+        depth = spec.get('brace_depth') if isinstance(spec, dict) else None
+        fails.append('malformed_located: parse_string raised a non-pybtex exception %s%s' % (
+            s['err'], ' [braces nested %d deep]' % depth if depth is not None else ''))
+    if isinstance(s, dict) and ('ok' in s or 'ok_flat' in s):
+        fails += accepted_clauses(impl_out.get('text', None) if op != 'bstparse' else case_text(case), s)
     return fails
+
+
+# Python's recursion limit: parse_group is a recursive generator (about two interpreter frames per nesting level).
+DEEP_NESTING = 300
+
+
+def _known_deep_nesting(case, impl_out, failure_text):
+    """EXACTLY: parse_string raised RecursionError on a source whose braces are nested at least DEEP_NESTING deep."""
+    import re
+    m = re.match(r'malformed_located: parse_string raised a non-pybtex exception INTERNAL:RecursionError \[braces nested (\d+) deep\]$',
+                 failure_text)
+    return bool(m) and int(m.group(1)) >= DEEP_NESTING and case.get('op') == 'bstparse'
+
+
+KNOWN_MODEL_DIFFERS = {'C15-deep-nesting-recursion'}   # the model parses at every depth; the code hits the interpreter's recursion limit
+KNOWN_MATCHERS = {'C15-deep-nesting-recursion': _known_deep_nesting}
 
 
 def buckets(case, impl_out):
     op = case['op']
     if op == 'bststrip':
         return ['strip:' + ('cut' if isinstance(impl_out, str) and impl_out != case['line'] else 'same')]
+    if op == 'bsteq':
+        return ['bsteq:%s:%s' % (case.get('kind', '-'), impl_out.get('eq') if isinstance(impl_out, dict) else '?')]
     s = impl_out.get('string', {}) if isinstance(impl_out, dict) else {}
     if 'err' in s:
         kind = '%s:%s' % (s['err'], (s.get('msg') or '')[:14])
@@ -300,11 +478,13 @@ def nontrivial(case, impl_out):  # noqa: F811
         return len(prog_lexemes(case['prog'])) >= 2
     if case['op'] == 'bstlex':
         return len(case['lexs']) >= 2
+    if case['op'] == 'bsteq':
+        return len(prog_lexemes(case['prog'])) + len(prog_lexemes(case['prog2'])) >= 2
     return len(case_text(case).split()) >= 2
 
 
 def valid_case(case):
-    return isinstance(case, dict) and case.get('op') in ('bstrt', 'bstlex', 'bstparse', 'bststrip')
+    return isinstance(case, dict) and case.get('op') in ('bstrt', 'bstlex', 'bstparse', 'bststrip', 'bsteq')
 
 
 # ------------------------------------------------------------------------------------------------
@@ -418,6 +598,15 @@ def gen_exhaustive(tier, info):
 
 
 REPLACEMENTS = [['w', 'foo'], ['w', "'q"], ['w', 'READ'], ['w', 'function'], ['i', -1], ['s', 'x%'], ['{'], ['}']]
+# lexically broken pieces (no lexeme at all), a lone quote mark of a quoted name, and look-alikes of commands / digits that
+# only a Unicode-aware upper() / \d accepts; each entry is a list of lexemes put in place of one
+RAW_REPLACEMENTS = [[['raw', '#']], [['raw', '#-']], [['raw', '#+1']], [['raw', '#a']], [['raw', '"x']], [['w', "'"]],
+                    [['w', 'x'], ['raw', '"']], [['raw', '#-a1']], [['raw', '#\u0663']], [['raw', '#-\u0967\u0968']],
+                    [['raw', '#\U0001d7d1']], [['w', '\u017fORT']], [['w', '\u0131TERATE']], [['w', 'REVER\u017fE']], [['w', '\ufb01']],
+                    [['w', '\u017fort'], ['{'], ['}']]]
+UNICODE_COMMANDS = ['\u017fORT', '\u017fort', '\u0131TERATE', '\u0131terate', 'REVER\u017fE', '\u017fTRINGS', 'INTEGER\u017f', '\u0131NTEGERS',
+                    'FUNCT\u0131ON', 'STR\u0131NGS', '\u0131NTEGER\u017f', 'MACR\u00d6', '\uff32\uff25\uff21\uff24', 'READ\u0301', '\ufb01']
+NONASCII_DIGITS = ['\u0663', '\u0967\u0968', '\U0001d7d1', '\uff11', '1\u0663', '\u06f4\u06f2', '\u00b2', '\u2460', '\u0be7']
 
 
 def gen_corruptions(tier, info):
@@ -430,6 +619,7 @@ def gen_corruptions(tier, info):
     layouts = ['space', 'newline', 'crlf'] + (['comment', 'tight'] if tier != 'quick' else [])
     cases = []
     ntext = 0
+    nraw = 0
     for prog in bases:
         lexs = prog_lexemes(prog)
         variants = []
@@ -443,6 +633,13 @@ def gen_corruptions(tier, info):
         for kind, v in variants:
             for lay in layouts:
                 cases.append({'op': 'bstlex', 'kind': kind, 'lay': lay, 'lexs': v, 'layout': mk_layout(lay, len(v))})
+        # lexically broken pieces and Unicode look-alikes in place of every lexeme
+        for i in range(len(lexs)):
+            for r in RAW_REPLACEMENTS:
+                v = lexs[:i] + r + lexs[i + 1:]
+                for lay in (['newline'] if tier == 'quick' else ['space', 'newline', 'crlf', 'comment', 'tight']):
+                    nraw += 1
+                    cases.append({'op': 'bstlex', 'kind': 'rawrepl', 'lay': lay, 'lexs': v, 'layout': mk_layout(lay, len(v))})
         # every truncation of the text (cuts inside tokens: unterminated strings, '#', '#-')
         for lay in ['space', 'newline', 'comment']:
             text = render(lexs, mk_layout(lay, len(lexs)))
@@ -450,8 +647,128 @@ def gen_corruptions(tier, info):
                 ntext += 1
                 cases.append({'op': 'bstparse', 'kind': 'cut', 'lay': lay, 'src': text[:k]})
     info['scope'] = info.get('scope', '') + ('corruptions: every delete / duplicate / truncate / replace-by-%d-lexemes of every lexeme of %d base '
-                                             'programs (all ten commands) x lay-outs %r; every character truncation of their texts (%d)' % (
-                                                 len(REPLACEMENTS), len(bases), layouts, ntext))
+                                             'programs (all ten commands) x lay-outs %r; every character truncation of their texts (%d); '
+                                             'every lexeme of the base programs replaced by each of %d lexically broken pieces / Unicode look-alikes '
+                                             '(#, #-, #+1, #a, "x, \', x", non-ASCII digits, long-s / dotless-i command names; %d cases)' % (
+                                                 len(REPLACEMENTS), len(bases), layouts, ntext, len(RAW_REPLACEMENTS), nraw))
+    return cases
+
+
+# ------------------------------------------------------------------------------------------------
+# Unicode look-alikes, resource limits, equality
+
+def gen_unicode(tier, info):
+    """Command names that only str.upper() maps onto a command, integers written with non-ASCII decimal digits."""
+    cases = []
+    body = [['Identifier', 'a'], ['Integer', 2]]
+    for name in UNICODE_COMMANDS:
+        for ngroups in (0, 1, 2, 3):
+            lexs = [['w', 'READ'], ['w', name]]
+            for _ in range(ngroups):
+                lexs += [['{'], ['w', 'f'], ['}']]
+            lexs += [['w', 'sort']]
+            for lay in ('space', 'newline'):
+                cases.append({'op': 'bstlex', 'kind': 'unicmd', 'lay': lay, 'lexs': lexs, 'layout': mk_layout(lay, len(lexs))})
+    for d in NONASCII_DIGITS:
+        for sign in ('', '-'):
+            lexs = prog_lexemes([command('FUNCTION', body)])
+            lexs = lexs[:-1] + [['raw', '#' + sign + d]] + lexs[-1:] + [['w', 'READ']]
+            for lay in ('space', 'newline', 'tight'):
+                cases.append({'op': 'bstlex', 'kind': 'unidigit', 'lay': lay, 'lexs': lexs, 'layout': mk_layout(lay, len(lexs))})
+            cases.append({'op': 'bstparse', 'kind': 'unidigit', 'src': 'FUNCTION {f}\n{ #%s%s }\n' % (sign, d)})
+            cases.append({'op': 'bstparse', 'kind': 'unidigit', 'src': 'FUNCTION {f}\n{ #%s7%s x }\n' % (sign, d)})
+    info['scope'] = info.get('scope', '') + ('; Unicode: %d command look-alikes x 0-3 groups x 2 lay-outs, %d non-ASCII digit strings x sign '
+                                             'as integer tokens' % (len(UNICODE_COMMANDS), len(NONASCII_DIGITS)))
+    return cases
+
+
+def gen_limits(tier, rng, info):
+    """Resource limits of the running interpreter: integer literals around the int() digit limit, very deep nesting.
+    Compared in flat form (pre-order token list, integers as decimal strings)."""
+    import sys
+    limit = sys.get_int_max_str_digits() if hasattr(sys, 'get_int_max_str_digits') else 4300
+    cases = []
+    for n in ([limit - 1, limit, limit + 1, limit + 700] if limit else [4299, 4301]):
+        for sign in ('', '-'):
+            for digit in ('7', '0'):
+                cases.append({'op': 'bstparse', 'kind': 'bigint', 'flat': True,
+                              'src': 'FUNCTION {f}\n{ a\n  #%s%s b }\nREAD' % (sign, digit * n)})
+        cases.append({'op': 'bstparse', 'kind': 'bigint', 'flat': True, 'src': 'FUNCTION {f} {#%s%s}' % ('0' * (n - 3), '123')})
+    depths = [50, 100, 200, 400, 600, 800, 1000] if tier == 'quick' else [50, 100, 150, 200, 250, 299, 300, 400, 500, 600, 700, 800, 900, 1000, 1500]
+    for d in depths:
+        cases.append({'op': 'bstparse', 'kind': 'deep', 'flat': True, 'src': 'FUNCTION {f} {' + '{' * d + '}' * d + '}'})
+        cases.append({'op': 'bstparse', 'kind': 'deep', 'flat': True,
+                      'src': 'FUNCTION {f}\n{' + ''.join('{ a%d #%d\n' % (i, i) for i in range(d)) + '"s"' + '}' * d + '}\nREAD'})
+        cases.append({'op': 'bstparse', 'kind': 'deep', 'flat': True, 'src': 'ITERATE {' + '{x ' * d + '}' * (d - 1)})   # one brace short
+    info['scope'] = info.get('scope', '') + ('; limits: integer literals of %s digits; function literals nested %r deep' % (
+        '/'.join(str(n) for n in ([limit - 1, limit, limit + 1, limit + 700] if limit else [4299, 4301])), depths))
+    return cases
+
+
+def leaf_variants(tok):
+    """Tokens that differ from `tok` (another value of the same class, the same value in another class, another body)."""
+    k, v = tok
+    if k == 'Integer':
+        return [['Integer', v + 1], ['Integer', -v if v else 5], ['String', str(v)], ['Identifier', 'n%d' % abs(v)]]
+    if k == 'String':
+        out = [['String', v + 'x'], ['String', v[:-1] if v else ' '], ['QuotedVar', 'q']]
+        if v and all(c in NAME_CHARS for c in v) and v[0] != "'":
+            out += [['Identifier', v], ['QuotedVar', v]]
+        if v.swapcase() != v:
+            out.append(['String', v.swapcase()])
+        return out
+    if k == 'Identifier':
+        return [['Identifier', v + 'x'], ['QuotedVar', v], ['String', v], ['Identifier', v.swapcase() if v.swapcase() != v else v + '.']]
+    if k == 'QuotedVar':
+        return [['QuotedVar', v + 'x'], ['String', v], ['String', "'" + v]] + ([['Identifier', v]] if v and v[0] != "'" else [])
+    return [['F', v + [['Integer', 0]]], ['F', v[1:]] if v else ['F', [['F', []]]], ['F', [['F', v]]], ['Identifier', 'f']]
+
+
+def one_leaf_changes(prog):
+    """All programs that differ from `prog` in exactly one place (a token replaced / dropped / doubled at any depth, a command
+    name respelled, a command dropped)."""
+    def tok_changes(toks):
+        for i, t in enumerate(toks):
+            for r in leaf_variants(t):
+                yield toks[:i] + [r] + toks[i + 1:]
+            yield toks[:i] + toks[i + 1:]
+            yield toks[:i + 1] + toks[i:]
+            if t[0] == 'F':
+                for b in tok_changes(t[1]):
+                    yield toks[:i] + [['F', b]] + toks[i + 1:]
+    for ci, c in enumerate(prog):
+        for gi, g in enumerate(c['g']):
+            for g2 in tok_changes(g):
+                yield prog[:ci] + [{'c': c['c'], 'g': c['g'][:gi] + [g2] + c['g'][gi + 1:]}] + prog[ci + 1:]
+        if c['c'].swapcase() != c['c']:
+            yield prog[:ci] + [{'c': c['c'].swapcase(), 'g': c['g']}] + prog[ci + 1:]
+        yield prog[:ci] + prog[ci + 1:]
+
+
+def gen_equality(tier, rng, info):
+    """parse(a) == parse(b) exactly when a and b spell the same program (the real == of the interpreter's token classes)."""
+    bases = [[command('FUNCTION', [['Integer', 1], ['String', 'a'], ['Identifier', 'x'], ['QuotedVar', 'x'],
+                                   ['F', [['Integer', 0], ['F', [['String', '']]]]]]), command('read', [])],
+             [command('ENTRY', [['Identifier', 'b']]), command('MACRO', [['String', 'jan']]), command('SORT', [])]]
+    for _ in range(2 if tier == 'quick' else 30):
+        bases.append(rand_prog(rng, rng.randint(1, 3), 2))
+    cases = []
+    lays = ['space', 'newline', 'comment', 'tight']
+    n = 0
+    for p in bases:
+        np_ = len(prog_lexemes(p))
+        for la in lays[:2]:
+            for lb in lays:
+                cases.append({'op': 'bsteq', 'kind': 'same', 'prog': p, 'layout': mk_layout(la, np_), 'prog2': p,
+                              'layout2': mk_layout(lb, np_)})
+        for q in one_leaf_changes(p):
+            n += 1
+            la, lb = lays[n % 2], lays[(n // 2) % 4]
+            cases.append({'op': 'bsteq', 'kind': 'leaf', 'prog': p, 'layout': mk_layout(la, np_), 'prog2': q,
+                          'layout2': mk_layout(lb, len(prog_lexemes(q)))})
+    info['scope'] = info.get('scope', '') + ('; equality: %d base programs against themselves under other lay-outs and against every program '
+                                             'that differs in one place (token replaced by another value / class, dropped, doubled, at any '
+                                             'depth; command respelled or dropped): %d pairs' % (len(bases), len(cases)))
     return cases
 
 
@@ -522,7 +839,7 @@ def rand_layout(rng, n):
     return {'gaps': [rand_gap(rng, plain) for _ in range(n + 1)], 'trailer': tr}
 
 
-RAW_ALPHABET = ['{', '}', '"', '#', '%', "'", '-', '0', '1', '9', 'a', 'B', ' ', ' ', '\n', '\n', '\r', '\t', ':=', 'READ', 'read ',
+RAW_ALPHABET = ['{', '}', '"', '#', '%', "'", '-', '+', '0', '1', '9', 'a', 'B', ' ', ' ', '\n', '\n', '\r', '\t', ':=', 'READ', 'read ', '\u0663', '\u017fort ',
                 'FUNCTION', 'ENTRY ', 'iterate{x}', '{a}', '#1', '#-2', '"s"', '\x0b', '\x85', ' ', ' \n', '\r\n', '%c\n', '+', 'x$']
 
 
@@ -540,6 +857,9 @@ def rand_line(rng):
 def gen_cases(tier, rng, info):
     cases = gen_exhaustive(tier, info)
     cases += gen_corruptions(tier, info)
+    cases += gen_unicode(tier, info)
+    cases += gen_limits(tier, rng, info)
+    cases += gen_equality(tier, rng, info)
     # exhaustive strip_comment: every line of length <= n over { % " a blank }
     n = 6 if tier == 'quick' else 8
     nstrip = 0
@@ -562,10 +882,15 @@ def gen_cases(tier, rng, info):
             r = rng.random()
             if r < 0.3 and lexs:
                 del lexs[min(j, len(lexs) - 1)]
-            elif r < 0.6:
+            elif r < 0.5:
                 lexs.insert(j, rng.choice(REPLACEMENTS + [['w', rand_name(rng)]]))
-            elif r < 0.8 and lexs:
+            elif r < 0.6:
+                lexs[j:j] = rng.choice(RAW_REPLACEMENTS)
+            elif r < 0.72 and lexs:
                 lexs[min(j, len(lexs) - 1)] = rng.choice(REPLACEMENTS)
+            elif r < 0.8 and lexs:
+                k = min(j, len(lexs) - 1)
+                lexs[k:k + 1] = rng.choice(RAW_REPLACEMENTS + [[['raw', '#' + rng.choice(['', '-', '+', '--']) + rng.choice(['', 'x', '1', '\u0663', '"'])]]])
             else:
                 lexs = lexs[:j]
         cases.append({'op': 'bstlex', 'kind': 'random', 'lay': 'random', 'lexs': lexs, 'layout': rand_layout(rng, len(lexs))})
@@ -585,9 +910,11 @@ LEVEL_TEXT = ('Machine-checked proofs (Lean 4) about an executable model of pybt
               'tests/data) and the oracle compares the implementation with an independent reference reading of lexeme sequences.')
 LEVEL_NOTE = ('Trusted: Lean kernel; axioms propext/Classical.choice/Quot.sound only; the hand-written model (Model/BstParse.lean, '
               'Model/Scanner.lean, Model/Lines.lean) corresponds to the Python code only as far as the differential check explores; '
-              're, str.splitlines, str.rstrip, str.upper and int() are modelled (ASCII letters/digits), not verified; the arity table is '
-              'regenerated from BstParser.COMMANDS on every run and must equal the reference table (theorem C15_commands_table).  The model '
-              'follows the code as repaired by proposed_fixes/C15-1.diff = /repo 5237556 (a command with too few groups is a syntax error).  Strings spanning several lines are parsed as the code does, but '
+              're, str.splitlines, str.rstrip, str.translate and int() are modelled, not verified; the arity table and the int() digit limit are '
+              'regenerated on every run and must equal the reference values (theorems C15_commands_table, C15_int_too_long_located_nonvacuous).  The model '
+              'follows the code as repaired by proposed_fixes/C15-1.diff = /repo 5237556 (a command with too few groups is a syntax error), '
+              'C15-2.diff (command names and integer digits are ASCII: long-s ORT and #<Arabic 3> are rejected) and C15-3.diff (an integer literal '
+              'beyond the int() digit limit is a syntax error instead of ValueError).  Nesting several hundred levels deep raises RecursionError '
+              '(recorded finding C15-deep-nesting-recursion).  Strings spanning several lines are parsed as the code does, but '
               'line numbers after them are off (the scanner does not count line breaks inside tokens) and parse_stream rstrips inside them '
-              '(C15_entry_points_agree_neg); they are outside WFProg.  Not proved: parse_stream round trip for printed programs with trailing '
-              'blanks, end-to-end (source-level) form of the unterminated-string error; both are covered by the correspondence only.')
+              '(C15_entry_points_agree_neg); they are outside WFProg.')
